@@ -4,6 +4,7 @@ import (
 	"encoding/json"
 	"errors"
 	"fmt"
+	"math"
 	"os"
 	"path/filepath"
 	"sync"
@@ -150,6 +151,12 @@ func (c *Config) Validate() error {
 
 	if !(c.CompactionRatio > 1.0) { // also rejects NaN
 		return fmt.Errorf("%w: Compaction ratio must be greater than 1.0", ErrInvalidConfig)
+	}
+
+	if math.IsInf(c.CompactionRatio, 0) {
+		// An infinite ratio passes the comparison above but cannot be stored in
+		// the manifest (JSON has no representation for it)
+		return fmt.Errorf("%w: Compaction ratio must be finite", ErrInvalidConfig)
 	}
 
 	// Validate Transaction settings
